@@ -470,9 +470,54 @@ def sequence_oracle(ctx):
     return s
 
 
+def windows_suite(ctx):
+    """which statement windows core.walk_sequence tries: a module of n simple statements against k templates that match any
+    statement, and the same statements inside if / else / for / while / with / def bodies, vs C12.windowsPy"""
+    from pyrefact import core
+
+    s = Suite("windows")
+    cases = [(n, k) for n in range(0, ctx.n(9, 13)) for k in range(1, ctx.n(11, 15))]
+    answers = ctx.driver.ask([{"suite": "windows", "n": n, "k": k} for (n, k) in cases])
+    wrappers = [("module", "{body}"), ("if", "if c:\n{ind}"), ("else", "if c:\n    pass\nelse:\n{ind}"), ("for", "for i in r:\n{ind}"), ("while-else", "while c:\n    pass\nelse:\n{ind}"),
+                ("with", "with c:\n{ind}"), ("def", "def f():\n{ind}")]
+    for (n, k), ans in zip(cases, answers):
+        want = ans.get("windows")
+        if want is None:
+            s.disagreements.append({"n": n, "k": k, "what": "driver refused"})
+            continue
+        for wname, shape in wrappers:
+            if n == 0 and wname != "module":
+                continue
+            stmts = [f"s{i}" for i in range(n)]
+            body = "\n".join(stmts) + ("\n" if stmts else "")
+            ind = "".join("    " + st + "\n" for st in stmts)
+            src = shape.format(body=body, ind=ind)
+            tree = ast.parse(src)
+            s.cases += 1
+            try:
+                res = list(core.walk_sequence(tree, *([ast.stmt] * k)))
+            except Exception as ex:  # noqa: BLE001
+                s.disagreements.append({"n": n, "k": k, "src": src, "what": f"walk_sequence raised {ex!r}"})
+                continue
+            got = []
+            for tup in res:
+                names = [ast.unparse(m[0] if isinstance(m, tuple) else m).strip() for m in tup]
+                if all(nm in stmts for nm in names):  # windows of the statements under test (not the wrapper's own body)
+                    got.append([stmts.index(nm) for nm in names])
+            if got != want:
+                s.disagreements.append({"n": n, "k": k, "src": src, "model": want, "real": got, "what": f"walk_sequence tries other statement windows than the model ({wname} body)"})
+            if n >= k and k >= 2:
+                s.nt([n, k, wname])
+            s.count(wname)
+    s.samples.append({"suite": "windows", "n": 4, "k": 2, "windows": [[0, 1], [1, 2], [2, 3]]})
+    s.note = ("every body length n < 9 (thorough 13) x pattern length k < 11 (thorough 15), the n statements as module body and inside if / else / for / while-else / with / def bodies: the tuples of statements that core.walk_sequence "
+              "reports for k templates matching any statement vs C12.windowsPy (indices, order); non-trivial = at least one window of two or more statements")
+    return s
+
+
 def suites(ctx):
     common.import_pyrefact()
-    return [perms_suite(ctx), match_suite(ctx), self_suite(ctx), flat_oracle(ctx), sequence_oracle(ctx)]
+    return [perms_suite(ctx), match_suite(ctx), self_suite(ctx), windows_suite(ctx), flat_oracle(ctx), sequence_oracle(ctx)]
 
 
 def match_known(d, known):
